@@ -18,6 +18,10 @@ import (
 	"os"
 	"path/filepath"
 	"strings"
+	"unicode"
+	"unicode/utf8"
+
+	"golang.org/x/text/unicode/norm"
 
 	"github.com/pdfcpu/pdfcpu/pkg/api"
 	"github.com/pdfcpu/pdfcpu/pkg/pdfcpu"
@@ -135,14 +139,70 @@ func rprep(a alg, x string) (string, bool) {
 	if !a.aes256() {
 		return pad32(x), true
 	}
-	p, err := pdfcpu.VerifC24ProcessInput(x)
-	if err != nil {
+	p, ok := specPrep(x)
+	if !ok {
 		return "", false
 	}
 	if len(p) > 127 {
 		p = p[:127]
 	}
 	return string(p), true
+}
+
+// plainText: letters, marks, digits and ASCII printable characters other than the space.  On such passwords the
+// specified preparation (SASLprep) is NFKC, and it must not identify letters that differ in case.
+func plainText(x string) bool {
+	if !utf8.ValidString(x) {
+		return false
+	}
+	for _, r := range x {
+		if !(unicode.IsLetter(r) || unicode.IsMark(r) || unicode.IsDigit(r) || (r > 0x20 && r < 0x7f)) {
+			return false
+		}
+	}
+	return true
+}
+
+// specPrep is the preparation of an AES-256 password by an independent route: golang.org/x/text/unicode/norm NFKC
+// directly (no case folding, no width or script mapping beyond NFKC) for plain text; for everything else (spaces,
+// mapped characters: the territory of finding aes256-password-prep-not-saslprep) what pdfcpu's processInput says.
+func specPrep(x string) (string, bool) {
+	if plainText(x) {
+		return norm.NFKC.String(x), true
+	}
+	p, err := pdfcpu.VerifC24ProcessInput(x)
+	return string(p), err == nil
+}
+
+// prepTable: the preparation handed to the model, and one correspondence case per password comparing the model's
+// password bytes (firstn 127 of the independent preparation) with the real processInput + truncation
+func prepTable(r *vh.Run, a alg, pool []string) string {
+	var tbl []string
+	for _, p := range pool {
+		pp, ok := specPrep(p)
+		entry := vh.Hex([]byte(p)) + ":!"
+		if ok {
+			entry = vh.Hex([]byte(p)) + ":" + vh.Hex([]byte(pp))
+		}
+		tbl = append(tbl, entry)
+		if a.aes256() && plainText(p) {
+			real, err := pdfcpu.VerifC24ProcessInput(p)
+			res := "!"
+			if err == nil {
+				if len(real) > 127 {
+					real = real[:127]
+				}
+				res = vh.Hex(real)
+			}
+			r.Case("prepared", []string{entry, vh.Hex([]byte(p))}, res)
+			want, _ := rprep(a, p)
+			if res != vh.Hex([]byte(want)) {
+				r.OracleFail("aes256-prep-differs-from-nfkc", map[string]any{"password_hex": vh.Hex([]byte(p))},
+					"processInput+truncation gives "+res+", NFKC+truncation gives "+vh.Hex([]byte(want)))
+			}
+		}
+	}
+	return strings.Join(tbl, ";")
 }
 
 // x is accepted for current password c: same prepared form
@@ -389,9 +449,10 @@ func (g ghost) after(o op) ghost {
 	return g
 }
 
-var basePW = []string{"", "a", "b", "own", "usr", "é", "pässwörd-ünïcode", "0123456789012345678901234567890123456789", "01234567890123456789012345678901", "a" + string(pad[:31]), string(pad)}
+var basePW = []string{"", "a", "b", "own", "usr", "é", "pässwörd-ünïcode", "0123456789012345678901234567890123456789", "01234567890123456789012345678901",
+	"OpenSesame42", "opensesame42", "Straße", "STRASSE", "a" + string(pad[:31]), string(pad)}
 
-const nTextPW = 9 // the first nTextPW entries of basePW are valid UTF-8 text; the rest are byte strings for R<=4
+const nTextPW = 13 // the first nTextPW entries of basePW are valid UTF-8 text; the rest are byte strings for R<=4
 var defectPW = []string{"my pass", "ª", "ﬁsh", "Á", strings.Repeat("x", 130), "a b", "x y"}
 
 func partB(r *vh.Run) {
@@ -562,17 +623,9 @@ func partB(r *vh.Run) {
 				}
 				implParts = append(implParts, codeOf(c)+"="+strings.Join(probes, ","))
 			}
-			// prep table for the model: the reader's preparation of every password of the pool
-			var tbl []string
-			for _, p := range pool {
-				pp, err := pdfcpu.VerifC24ProcessInput(p)
-				if err != nil {
-					tbl = append(tbl, vh.Hex([]byte(p))+":!")
-				} else {
-					tbl = append(tbl, vh.Hex([]byte(p))+":"+vh.Hex(pp))
-				}
-			}
-			r.Case("run", []string{strings.Join(tbl, ";"), strings.Join(hexAll(pool), ","), strings.Join(wires, ";")}, strings.Join(implParts, "|"))
+			// prep table for the model: the independent preparation of every password of the pool
+			tbl := prepTable(r, a, pool)
+			r.Case("run", []string{tbl, strings.Join(hexAll(pool), ","), strings.Join(wires, ";")}, strings.Join(implParts, "|"))
 		}
 	}
 }
@@ -690,4 +743,204 @@ func main() {
 	partA(r)
 	partB(r)
 	partC(r)
+	partD(r)
+}
+
+// ---------------------------------------------------------------- Part D: near misses
+
+type variant struct{ kind, pw string }
+
+func swapCase(r rune) rune {
+	if unicode.IsUpper(r) {
+		return unicode.ToLower(r)
+	}
+	if unicode.IsLower(r) {
+		return unicode.ToUpper(r)
+	}
+	return r
+}
+
+func nearMisses(s string) []variant {
+	var vs []variant
+	add := func(kind, v string) {
+		if v != s {
+			vs = append(vs, variant{kind, v})
+		}
+	}
+	add("case-swapped-all", strings.Map(swapCase, s))
+	add("case-lower", strings.ToLower(s))
+	add("case-upper", strings.ToUpper(s))
+	rs := []rune(s)
+	for i, c := range rs {
+		if swapCase(c) != c {
+			t := append([]rune{}, rs...)
+			t[i] = swapCase(c)
+			add("case-swapped-one", string(t))
+			break
+		}
+	}
+	add("case-special", strings.NewReplacer("ß", "ss", "ẞ", "ß", "ı", "i", "İ", "i", "I", "ı", "ς", "σ", "K", "k").Replace(s))
+	add("case-special", strings.NewReplacer("ß", "ẞ", "i", "ı", "σ", "ς").Replace(s))
+	for i, c := range rs { // NFKC-equal: a fullwidth form of an ASCII letter, and back
+		if c >= 'A' && c <= 'z' && unicode.IsLetter(c) {
+			t := append([]rune{}, rs...)
+			t[i] = c - 'A' + 0xFF21
+			add("nfkc-equal-fullwidth", string(t))
+			break
+		}
+		if c >= 0xFF21 && c <= 0xFF5A {
+			t := append([]rune{}, rs...)
+			t[i] = c - 0xFF21 + 'A'
+			add("nfkc-equal-fullwidth", string(t))
+			break
+		}
+	}
+	add("blank-trailing", s+" ")
+	add("blank-leading", " "+s)
+	if len(rs) > 1 {
+		add("char-dropped", string(rs[:len(rs)-1]))
+		add("char-dropped", string(rs[1:]))
+	}
+	add("char-added", s+"x")
+	add("homoglyph", strings.NewReplacer("a", "а", "e", "е", "o", "о", "p", "р", "c", "с", "A", "А", "B", "В", "K", "К", "I", "І", "Α", "A", "ο", "o", "е", "e", "р", "p").Replace(s))
+	return vs
+}
+
+func partD(r *vh.Run) {
+	pairs := [][2]string{{"OpenSesame42", "UserPw7"}, {"Straße", "ẞig"}, {"ΑλφαΩμέγα", "Привет"}, {"ＡBCdef", "İstanbulı"}, {"Kelvin", "McIntosh"}, {"own", "Usr"}}
+	for _, a := range algs {
+		for pi, pr := range pairs {
+			if !r.Thorough() && (pi+a.rev)%2 == 1 {
+				continue
+			}
+			own, usr := pr[0], pr[1]
+			eq := func(x, y string) bool { return accepts(a, y, x) }
+			enc := op{kind: kEncrypt, opw: own, upw: usr, perm: model.PermissionsAll}
+			doc, err := apply(a, minimalPDF(a.v20), enc)
+			base := map[string]any{"alg": a.name, "owner_hex": vh.Hex([]byte(own)), "user_hex": vh.Hex([]byte(usr))}
+			if err != nil {
+				r.OracleFail("encrypt-failed", base, err.Error())
+				continue
+			}
+			var vars []variant
+			for _, v := range append(nearMisses(own), nearMisses(usr)...) {
+				vars = append(vars, v)
+			}
+			fail := func(kind, opname string, v string, detail string) {
+				in := map[string]any{"variant_hex": vh.Hex([]byte(v)), "variant_kind": kind, "operation": opname}
+				for k, x := range base {
+					in[k] = x
+				}
+				r.OracleFail("wrong-password-accepted:"+kind+":"+opname, in, detail)
+			}
+			// ---- opening: K case A = history [E] probed with every variant
+			pool := []string{"", own, usr}
+			var probes []string
+			for _, v := range vars {
+				pool = append(pool, v.pw)
+			}
+			for _, x := range pool {
+				for slot := 0; slot < 2; slot++ {
+					var o opener
+					if slot == 0 {
+						o = open(doc, x, "")
+					} else {
+						o = open(doc, "", x)
+					}
+					if o.cls == "ok" {
+						probes = append(probes, "o")
+					} else {
+						probes = append(probes, codeOf(o.cls))
+					}
+				}
+			}
+			for vi, v := range vars {
+				wrong := !eq(v.pw, own) && !eq(v.pw, usr)
+				for slot, name := range []string{"open-owner-slot", "open-user-slot"} {
+					got := probes[2*(3+vi)+slot]
+					switch {
+					case wrong && got == "o":
+						fail(v.kind, name, v.pw, "opened")
+					case !wrong && slot == 1 && eq(v.pw, usr) && got != "o":
+						r.OracleFail("equivalent-password-rejected:"+v.kind+":"+name, map[string]any{"alg": a.name, "variant_hex": vh.Hex([]byte(v.pw)), "user_hex": vh.Hex([]byte(usr))}, got)
+					default:
+						r.OracleOK()
+					}
+				}
+				r.Count("D:" + v.kind + ":wrong=" + vh.Bool(wrong))
+			}
+			r.Case("run", []string{prepTable(r, a, pool), strings.Join(hexAll(pool), ","), enc.wire(a)}, "0="+strings.Join(probes, ","))
+
+			// ---- operations with a near miss in one slot and the right password in the other: all must fail
+			var ops []op
+			var labels [][3]string // kind, operation, variant
+			for _, v := range vars {
+				if eq(v.pw, own) || eq(v.pw, usr) {
+					continue
+				}
+				add := func(name string, o op) {
+					ops = append(ops, o)
+					labels = append(labels, [3]string{v.kind, name, v.pw})
+				}
+				add("decrypt-owner-slot", op{kind: kDecrypt, opw: v.pw})
+				add("decrypt-user-slot", op{kind: kDecrypt, upw: v.pw})
+				add("setpermissions-owner-slot", op{kind: kSetPerms, opw: v.pw, upw: usr, perm: model.PermissionsNone})
+				add("setpermissions-user-slot", op{kind: kSetPerms, opw: own, upw: v.pw, perm: model.PermissionsNone})
+				add("changeuser-owner-slot", op{kind: kChangeUser, opw: v.pw, upw: usr, newpw: "NewUser1"})
+				add("changeuser-old-user", op{kind: kChangeUser, opw: own, upw: v.pw, newpw: "NewUser1"})
+				add("changeowner-old-owner", op{kind: kChangeOwner, opw: v.pw, upw: usr, newpw: "NewOwner1"})
+				add("changeowner-user-slot", op{kind: kChangeOwner, opw: own, upw: v.pw, newpw: "NewOwner1"})
+			}
+			// every operation is tried on the document as encrypted above (a wrongly successful one is discarded), which is
+			// also what the model predicts: all of them fail and leave the document as it is
+			wires := []string{enc.wire(a)}
+			impl := []string{"0=" + probes[0] + "," + probes[1]}
+			pool2 := []string{"", own, usr, "NewUser1", "NewOwner1"}
+			for i, o := range ops {
+				_, err := apply(a, doc, o)
+				c := cls(err)
+				if err == nil {
+					fail(labels[i][0], labels[i][1], labels[i][2], "operation succeeded")
+				} else {
+					r.OracleOK()
+				}
+				wires = append(wires, o.wire(a))
+				impl = append(impl, codeOf(c)+"="+probes[0]+","+probes[1])
+				pool2 = append(pool2, labels[i][2])
+			}
+			r.Case("run", []string{prepTable(r, a, dedup(pool2)), "", strings.Join(wires, ";")}, strings.Join(impl, "|"))
+
+			// ---- after a legitimate change the case variants of the new password are wrong passwords too
+			newU := "NewPass9"
+			if out, err := apply(a, doc, op{kind: kChangeUser, opw: own, upw: usr, newpw: newU}); err != nil {
+				r.OracleFail("right-credentials-refused", base, cls(err))
+			} else {
+				for _, v := range nearMisses(newU) {
+					if eq(v.pw, newU) || eq(v.pw, own) {
+						continue
+					}
+					if o := open(out, "", v.pw); o.cls == "ok" {
+						fail(v.kind, "open-after-change", v.pw, "opened")
+					} else {
+						r.OracleOK()
+					}
+				}
+				if o := open(out, "", newU); o.cls != "ok" {
+					r.OracleFail("new-password-rejected", base, o.cls)
+				}
+			}
+		}
+	}
+}
+
+func dedup(l []string) []string {
+	seen := map[string]bool{}
+	var o []string
+	for _, s := range l {
+		if !seen[s] {
+			seen[s] = true
+			o = append(o, s)
+		}
+	}
+	return o
 }
